@@ -33,6 +33,8 @@ WRAPPERS = [
     ('\\begin{center}\\hid{0}', '\\hid{0}\\end{center}'),
     ('\\begin{itemize}\\item q ', ' r\\item z\\end{itemize}'),
     ('p{q ', ' r}s'),
+    # a built-in verbatim-like environment with a hostile body next to the one under test (user list must extend, not replace)
+    ('\\begin{lstlisting}$ { \\x[\\end{lstlisting} ', ' \\begin{verbatim}} ] $$\\end{verbatim}'),
     ('\\o[k ', ' l]{m}'),
 ]
 
